@@ -486,75 +486,94 @@ def check_online_operation(ix, rep, opc, time):
     slot = '%s-online' % time
     if time == 'dense':
         check_pair_source(rep, f, '%s.update' % opc.name, slot, ix=ix)
-    chain = [s for s in f.node.body if isinstance(s, ast.If)]
-    if len(chain) != 1:
-        raise AnalysisError('%s: expected one semantics chain' % f.where)
-    n = chain[0]
-    arms = []
-    while True:
-        arms.append((n.test, n.body))
-        if len(n.orelse) == 1 and isinstance(n.orelse[0], ast.If):
-            n = n.orelse[0]
-        else:
-            arms.append((None, n.orelse))
-            break
-    # the arms are executed over the 20 worlds (5 semantics x input variables empty? x output variables empty?): whatever the conditions look
-    # like, the arm taken in each world has to be the one of the interface-aware table
-    env = {}
-    for st in f.node.body:
-        if isinstance(st, ast.Assign) and len(st.targets) == 1 and isinstance(st.targets[0], ast.Name) and not isinstance(st.value, ast.Call):
-            env[st.targets[0].id] = st.value
+    # update() is executed over the 20 worlds (5 semantics x input variables empty? x output variables empty?): tests on the semantics and on the
+    # two variable lists are decided by the world (through locals bound to conditions), tests on the data are followed both ways.  Whatever the
+    # code looks like -- one if/elif chain, flags and an early return, a test inside the sample loop -- what a world substitutes has to be the
+    # entry of the interface-aware table.
+    base_names = set()
+    for st in ast.walk(f.node):
+        if isinstance(st, ast.Assign) and isinstance(st.value, ast.Call) and isinstance(st.value.func, ast.Attribute) and st.value.func.attr == 'update' \
+                and isinstance(st.targets[0], ast.Name):
+            base_names.add(st.targets[0].id)
+
+    def run(stmts, w, env, eff):
+        """-> returned expression (or None when the block falls through)"""
+        for st in stmts:
+            if isinstance(st, ast.Expr) and isinstance(st.value, ast.Constant):
+                continue
+            if isinstance(st, ast.Return):
+                if st.value is not None and not isinstance(st.value, ast.Name):
+                    eff.append(ast.copy_location(ast.Assign(targets=[ast.Name(id='__returned', ctx=ast.Store())], value=st.value), st))
+                return ('ret', st.value)
+            if isinstance(st, ast.Assign) and len(st.targets) == 1 and isinstance(st.targets[0], ast.Name):
+                env[st.targets[0].id] = st.value
+                eff.append(st)
+                continue
+            if isinstance(st, ast.If):
+                try:
+                    t = _truth(st.test, w, env)
+                except _Unknown:
+                    t = None
+                if t is None:
+                    # a test on the data: both arms belong to what this world does
+                    eff.append(st)
+                    continue
+                r = run(st.body if t else st.orelse, w, env, eff)
+                if r is not None:
+                    return r
+                continue
+            if isinstance(st, (ast.For, ast.While)):
+                r = run(st.body, w, env, eff)
+                if r is not None:
+                    raise AnalysisError('%s: return inside a loop of update()' % f.where)
+                continue
+            eff.append(st)
+        return None
+
+    def outcome(w):
+        env, eff = {}, []
+        r = run(f.node.body, w, env, eff)
+        sk = subst_kind(eff)
+        if sk is not None:
+            return sk[0], sk, eff
+        ret = r[1] if r is not None else None
+        if ret is not None and _is_zero(ret):
+            return 'zero', None, eff
+        if isinstance(ret, ast.Name):
+            if isinstance(env.get(ret.id), ast.Name) and env[ret.id].id in base_names:
+                return 'default', None, eff
+            if ret.id in base_names and isinstance(env.get(ret.id), ast.Call):
+                return 'default', None, eff
+            if ret.id in env and _is_zero(env[ret.id]):
+                return 'zero', None, eff
+        return 'other', None, eff
     seen = {}
-    kinds = []
-    for test, body in arms:
-        sk = subst_kind(body) if test is not None else None
-        kinds.append(sk[0] if sk else ('default' if test is None or not body else 'other'))
-        if test is not None:
-            seen[sk[0] if sk else 'other'] = (None, sk, test)
     wrong = {}
     try:
         for w in _worlds():
-            taken = None
-            for (test, body), kind in zip(arms, kinds):
-                if test is None or _truth(test, w, env):
-                    taken = kind
-                    break
+            taken, sk, eff = outcome(w)
+            if taken in ('inf', 'zero', 'inverted') and taken not in seen:
+                line = min([getattr(x, 'lineno', f.node.lineno) for x in eff[-3:]] or [f.node.lineno])
+                seen[taken] = (None, sk, ast.copy_location(ast.Pass(), ast.Pass(lineno=line, col_offset=0)))
             want = _reference_arm(w)
-            if taken != want:
+            if taken != want and not (taken == 'inverted' and want == 'inf'):
                 wrong.setdefault(want, []).append((w, taken))
     except _Unknown as e:
         raise AnalysisError('%s: semantics condition `%s` not understood' % (f.where, e))
     for kind in ('inf', 'zero', 'default'):
         label = {'inf': '+-inf by verdict', 'zero': '0', 'default': 'nothing (the standard robustness)'}[kind]
-        if kind != 'default' and kind not in seen:
-            rep.fail('R-IATABLE', f.module.rel, '%s.update' % opc.name, '%s:%s' % (slot, kind), 'no branch substitutes %s' % label, f.node.lineno)
-        elif kind in wrong:
+        if kind in wrong:
             w, taken = wrong[kind][0]
-            rep.fail('R-IATABLE', f.module.rel, '%s.update' % opc.name, '%s:%s' % (slot, kind), 'for a predicate with (%s) the table substitutes %s, update() takes the branch substituting %s'
+            rep.fail('R-IATABLE', f.module.rel, '%s.update' % opc.name, '%s:%s' % (slot, kind), 'for a predicate with (%s) the table substitutes %s, update() substitutes %s'
                      ' (%d of 20 cases differ)' % (_show_world(w), label, {'inf': '+-inf', 'zero': '0', 'default': 'nothing', 'other': 'something else', None: 'nothing'}.get(taken, taken),
                                                   sum(len(v) for v in wrong.values())), (seen[kind][2].lineno if kind in seen else f.node.lineno))
-        elif kind != 'default':
-            rep.ok('R-IATABLE', f.module.rel, '%s.update' % opc.name, '%s:%s' % (slot, kind), 'taken in exactly the worlds of the table (20 worlds executed)', seen[kind][2].lineno)
+        else:
+            rep.ok('R-IATABLE', f.module.rel, '%s.update' % opc.name, '%s:%s' % (slot, kind), 'substituted in exactly the worlds of the table (20 worlds executed)',
+                   (seen[kind][2].lineno if kind in seen else f.node.lineno))
     if 'inverted' in seen:
         rep.fail('R-IATABLE', f.module.rel, '%s.update' % opc.name, slot + ':sign', 'a holding insensitive predicate is mapped to -inf', f.node.lineno)
-    # default arm: numeric robustness of the standard operation, unchanged
-    default = arms[-1][1]
-    base_names = set()
-    for st in f.node.body:
-        if isinstance(st, ast.Assign) and isinstance(st.value, ast.Call) and isinstance(st.value.func, ast.Attribute) and st.value.func.attr == 'update' \
-                and isinstance(st.targets[0], ast.Name):
-            base_names.add(st.targets[0].id)
-    retn = returned_names(f.node)
-    ok = False
-    if not default and retn and retn[0] in base_names:
-        ok = True  # discrete: out_sample initialised from the base and overwritten in the two arms
-    for s in default:
-        if isinstance(s, ast.Assign) and isinstance(s.value, ast.Name) and s.value.id in base_names:
-            ok = True
-    if ok:
+    if 'default' not in wrong:
         rep.ok('R-IATABLE', f.module.rel, '%s.update' % opc.name, slot + ':sensitive', 'a sensitive predicate keeps the robustness of the standard operation', f.node.lineno)
-    else:
-        rep.fail('R-IATABLE', f.module.rel, '%s.update' % opc.name, slot + ':sensitive', 'the default arm does not return the standard robustness', f.node.lineno)
     # shape of the verdict
     sat = ix.resolve_method(opc, 'sat')
     rep.analysed(sat)
@@ -564,7 +583,10 @@ def check_online_operation(ix, rep, opc, time):
         shape = 'scalar'  # discrete: returns the Boolean itself
     if 'inf' in seen and seen['inf'][1] and seen['inf'][1][0] == 'inf':
         tested = ast.unparse(seen['inf'][1][1]).replace(' ', '')
-        if (shape == 'pair' and tested.endswith('[1]')) or (shape == 'scalar' and not tested.endswith(']')):
+        # `for stamp, verdict in <verdict list>`: the second name of the unpacking is the Boolean
+        unpacked = {n.target.elts[1].id for n in ast.walk(f.node) if isinstance(n, ast.For) and isinstance(n.target, ast.Tuple) and len(n.target.elts) == 2
+                    and isinstance(n.target.elts[1], ast.Name) and not (isinstance(n.iter, ast.Call) and getattr(n.iter.func, 'id', None) == 'enumerate')}
+        if (shape == 'pair' and (tested.endswith('[1]') or tested in unpacked)) or (shape == 'scalar' and not tested.endswith(']')):
             rep.ok('R-SHAPE', f.module.rel, '%s.update' % opc.name, slot + ':verdict-shape', 'tests the Boolean verdict (%s)' % shape, f.node.lineno)
         else:
             rep.fail('R-SHAPE', f.module.rel, '%s.update' % opc.name, slot + ':verdict-shape', 'sat() yields %s values but update tests `%s == True`' % (shape, tested), f.node.lineno)
@@ -598,6 +620,26 @@ def check_online_visitor(ix, rep, mon, params):
     args = dict(zip(params, [ast.unparse(a) for a in call.args]))
     for kw in call.keywords:
         args[kw.arg] = ast.unparse(kw.value)
+    # `self.X` with X a class-level constant (never assigned in a method): the value the concrete visitor class gives it
+    import re as _re
+    for k, txt in list(args.items()):
+        m_ = _re.match(r'^(self|type\(self\)|self\.__class__)\.(\w+)$', txt or '')
+        if m_:
+            attr = m_.group(2)
+            assigned_in_method = False
+            val = None
+            for c in ix.mro(mon.visitor):
+                if not hasattr(c, 'node'):
+                    continue
+                for st in c.node.body:
+                    if isinstance(st, ast.FunctionDef) and any(isinstance(n, ast.Attribute) and isinstance(n.ctx, ast.Store) and n.attr == attr for n in ast.walk(st)):
+                        assigned_in_method = True
+                    if val is None and isinstance(st, ast.Assign) and any(isinstance(t, ast.Name) and t.id == attr for t in st.targets):
+                        val = ast.unparse(st.value)
+                if val is not None:
+                    break
+            if val is not None and not assigned_in_method:
+                args[k] = val
     want = {'semantics': 'Semantics.' + SEM_ENUM[mon.sem], 'in_vars': nodep + '.in_vars', 'out_vars': nodep + '.out_vars'}
     for k, v in want.items():
         if args.get(k) == v:
@@ -649,6 +691,8 @@ def check_factories(ix, rep):
                 node = node.orelse[0]
             else:
                 break
+        if not seen:
+            raise AnalysisError('%s: the interpreters are not selected by an if/elif chain over Semantics (a table or another form is not interpreted)' % f.where)
         if seen != {'STANDARD', 'OUTPUT_ROBUSTNESS', 'INPUT_ROBUSTNESS', 'OUTPUT_VACUITY', 'INPUT_VACUITY'}:
             rep.fail('R-IATABLE', m.rel, fn, fn + ':branches', 'factory handles %s' % sorted(seen), f.node.lineno)
     return n
